@@ -137,6 +137,16 @@ def _inv_mass(p):
 _EPS = 2.220446049250313e-16
 
 
+def _seq_amp(ps):
+    """per-event factor max(1, 8 eps gamma^2 / 1e-9), gamma = largest Lorentz factor E/M of the sub-systems {k..n}, 2 <= size < n (see _kin_report)"""
+    amp = np.ones(len(ps[0]))
+    for k in range(1, len(ps) - 1):
+        sub = sum(ps[k:])
+        m2 = np.maximum(sub[:, 0] ** 2 - np.sum(sub[:, 1:] ** 2, axis=1), 1e-300)
+        amp = np.maximum(amp, 8 * _EPS * (sub[:, 0] ** 2 / m2) / 1e-9)
+    return amp
+
+
 def _kin_report(ps, m0, mi, seq=False):
     """finite?, max on-shell residual / m0, max |sum E - m0| / m0, max |sum p| / m0.
 
@@ -149,12 +159,7 @@ def _kin_report(ps, m0, mi, seq=False):
     fin = all(np.all(np.isfinite(p)) for p in ps)
     if not fin or not len(ps[0]):
         return fin, 0.0, 0.0, 0.0
-    amp = np.ones(len(ps[0]))
-    if seq:
-        for k in range(1, len(ps) - 1):
-            sub = sum(ps[k:])
-            m2 = np.maximum(sub[:, 0] ** 2 - np.sum(sub[:, 1:] ** 2, axis=1), 1e-300)
-            amp = np.maximum(amp, 8 * _EPS * (sub[:, 0] ** 2 / m2) / 1e-9)
+    amp = _seq_amp(ps) if seq else np.ones(len(ps[0]))
     shell = max(float(np.max(_E_form(p, m) / amp)) for p, m in zip(ps, mi)) / m0
     tot = sum(ps)
     return fin, shell, float(np.max(np.abs(tot[:, 0] - m0) / amp)) / m0, float(np.max(np.max(np.abs(tot[:, 1:]), axis=1) / amp)) / m0
@@ -580,6 +585,400 @@ def c10_cal_max(ctx):
             acc.add("weight_le_1_after_cal_max_weight", ok,
                     {"m0": m0, "mi": mi, "tf_seed": s, "raised": err, "max_weight": float(wt[i]), "masses": [float(np.asarray(x)[i]) for x in ms],
                      "m_wtMax_before": old, "m_wtMax_after": float(gen.m_wtMax), "fraction_of_proposals_above_1": float(np.mean(wt > 1.0)), "all_failing_cases": failing})
+    acc.flush()
+
+
+# independence of sub-decays ---------------------------------------------------------------------
+# Flat Lorentz-invariant phase space with fixed intermediate masses factorises: every decay node of the chain (the top decay and every sub-system of
+# fixed mass) is an independent flat decay in its own rest frame.  ChainGenerator generates each node at rest and moves it with the PURE boost of its
+# mother's momentum (rest_vector(neg(p0), .)), so undoing the pure boosts along the path from the top frame recovers the node's own sample; the
+# direction u of the node's first daughter in the node's rest frame is isotropic and independent from node to node.
+#
+#   (a) deterministic clause: two nodes never hold the same rest-frame sample.  For independent isotropic directions P(|u1 - u2| < d) = d^2/4; with
+#       d = 1e-8 (seven orders above the rounding of two boosts with gamma <= 5, ~1e-15) and at most 1e7 event pairs per run the chance of a false
+#       alarm is <= 2.5e-10.
+#   (b) E[u1_j u2_k] = 0 for all 9 component pairs; every term lies in [-1, 1], the events are independent, so by Hoeffding's inequality (valid for every N)
+#       P(|mean_N(u1_j u2_k)| >= t) <= 2 exp(-N t^2 / 2).  With T tests in the group (node pairs x 9 components x seeds) the bound
+#       t = sqrt(2 ln(2 T / 1e-9) / N) makes the chance of ANY false alarm in the group <= 1e-9.  A shared sample gives mean(u_j u_j) = 1/3.
+TWIN_CHAINS = [
+    (3.0, ((1.0, (0.25, 0.375)), (1.0, (0.25, 0.375)), 0.5)),                      # A -> (R->ab)(R->ab) c
+    (3.0, ((1.0, (0.2, 0.3)), (1.0, (0.2, 0.3)), 0.5)),                            # the same with generic masses
+    (4.0, ((1.5, (0.5, 0.25, 0.125)), (1.5, (0.5, 0.25, 0.125)))),                 # three-body twins below a two-body top decay
+    (5.0, ((1.0, (0.25, 0.375)), (2.5, ((1.0, (0.25, 0.375)), 0.5)), 0.25)),       # twins at different depths
+    (4.0, ((1.0, (0.25, 0.5)), (1.0, (0.25, 0.5)), (1.0, (0.25, 0.5)))),           # triplets
+    (6.0, ((2.5, ((1.0, (0.25, 0.375)), (1.0, (0.25, 0.375)))), (2.5, ((1.0, (0.25, 0.375)), (1.0, (0.25, 0.375)))))),   # twins of twins
+    (3.0, ((1.0, (0.25, 0.375)), (1.0, (0.375, 0.25)), 0.5)),                      # control: same masses in the other order (not twins)
+    (5.0, ((3.0, (0.5, (1.5, (0.4, 0.3, 0.2)))), (1.2, (0.1, 0.2, 0.3)), 0.3)),    # control: no twins at all
+]
+TWIN_DELTA = 1e-8
+
+
+def _map_leaves(x, f):
+    return [_map_leaves(i, f) for i in x] if isinstance(x, (list, tuple)) else f(np.asarray(x, dtype=np.float64))
+
+
+def _node_rest_samples(out, struct_mi):
+    """{path of a decay node: (node key, [four-momenta of its daughters in the node's rest frame])}; the top decay has path ().
+    The rest frame of a node is reached from the top frame by the successive pure boosts along its path (own numpy boost, models.boost_many)."""
+    res = {}
+
+    def rec(o, mi, path, mass):
+        dau = [sum(_flat(x)) for x in o]
+        key = (float(mass), tuple(float(m[0]) if isinstance(m, (tuple, list)) else float(m) for m in mi))
+        res[path] = (key, dau)
+        for i, (x, m) in enumerate(zip(o, mi)):
+            if isinstance(m, (tuple, list)):
+                beta = -dau[i][:, 1:] / dau[i][:, 0:1]
+                rec(_map_leaves(x, lambda p: M.boost_many(p, beta)), m[1], path + (i,), m[0])
+
+    rec(out, struct_mi, (), float("nan"))
+    return res
+
+
+def _unit(p):
+    return p[:, 1:] / np.sqrt(np.sum(p[:, 1:] ** 2, axis=1))[:, None]
+
+
+def _n_node_pairs(struct_mi):
+    n = 1 + len(_subsystems(struct_mi))
+    return n * (n - 1) // 2
+
+
+def _independence_report(out, struct_mi):
+    """[(path1, path2, twins?, min_events |u1 - u2|, max_jk |mean(u1_j u2_k)|, (j, k))] over all pairs of decay nodes"""
+    nodes = _node_rest_samples(out, struct_mi)
+    paths = sorted(nodes)
+    rep = []
+    for a in range(len(paths)):
+        for b in range(a + 1, len(paths)):
+            (k1, d1), (k2, d2) = nodes[paths[a]], nodes[paths[b]]
+            u1, u2 = _unit(d1[0]), _unit(d2[0])
+            C = u1.T @ u2 / len(u1)
+            jk = np.unravel_index(int(np.argmax(np.abs(C))), C.shape)
+            rep.append((paths[a], paths[b], paths[a] != () and k1 == k2, float(np.min(np.sqrt(np.sum((u1 - u2) ** 2, axis=1)))), float(np.abs(C[jk])), (int(jk[0]), int(jk[1]))))
+    return rep
+
+
+@group(["C10"], "iface.C10/independent_subdecays",
+       ["phasespace:ChainGenerator.generate", "phasespace:_get_generator", "phasespace:_restruct_pi", "phasespace:generate_phsp", "config_loader.sample:generate_phsp_p",
+        "config_loader.sample:get_phsp_p_generator"], env="tf", kind="B",
+       bound="8 nestings (two twins side by side with exact and generic masses, three-body twins, twins at different depths, triplets, twins of twins, two controls without "
+             "twins); N = 4000 (quick) / 20000 (thorough) events, seeds 0,1 (quick) / 0..4; ChainGenerator and generate_phsp alternate; ConfigLoader.generate_phsp_p on the four-body "
+             "branching structure A -> (R->BD)(R'->CE) with two fixed-mass resonances of equal mass and equal daughter masses.  The correlation clause is STATISTICAL with a "
+             "Hoeffding bound: chance of any false alarm in the group <= 1e-9 (bound t = sqrt(2 ln(2T/1e-9)/N), T = number of tests in the group); the 'differ' clause has a "
+             "false-alarm chance <= 2.5e-10",
+       assumes=["A-LIB: TensorFlow's random number generator delivers independent uniform variates"])
+def c10_independent(ctx):
+    tf = ctx.mod("tensorflow_wrapper").tf
+    PS = ctx.mod("phasespace")
+    acc = Acc(ctx)
+    N = 4000 if ctx.tier == "quick" else 20000
+    seeds = range(2 if ctx.tier == "quick" else 5)
+    cfg_struct = ((0.892, (0.1396, 0.4937)), (0.892, (0.1396, 0.4937)))
+    T = 9 * len(seeds) * (sum(_n_node_pairs(mi) for _, mi in TWIN_CHAINS) + _n_node_pairs(cfg_struct))
+    bound = math.sqrt(2.0 * math.log(2.0 * T / 1e-9) / N)
+    cl = {
+        "chain/physical_with_identical_subdecays": "nestings that contain sub-decays with identical (mass, daughter masses): exactly N events per final particle, on shell to 1e-9*m0, "
+                                                   "momenta add up to (m0,0,0,0) and sub-systems have their fixed mass to 2e-7*m0",
+        "chain/identical_subdecays_differ_event_by_event": "independent sub-decays: two decay nodes with identical (mass, daughter masses) never receive the same rest-frame sample - in every "
+                                                           "event the rest-frame directions of their first daughters differ by more than 1e-8",
+        "chain/subdecay_directions_uncorrelated": "flat phase space factorises over the decay nodes: for every pair of decay nodes (top decay included) the rest-frame directions u1, u2 of "
+                                                  "their first daughters satisfy |mean_events(u1_j u2_k)| <= sqrt(2 ln(2T/1e-9)/N) for all 9 component pairs (Hoeffding)",
+        "ConfigLoader.generate_phsp_p/identical_subdecays_independent": "generate_phsp_p(N) for A -> (R->BD)(R'->CE) with m(R) = m(R'), m(B) = m(C), m(D) = m(E): physical events, the two sub-decays "
+                                                                        "differ event by event (> 1e-8) and their rest-frame directions are uncorrelated (same bound)",
+    }
+    for k, c in cl.items():
+        acc.declare(k, c)
+
+    def judge(out, m0, mi, w, name_differ, name_corr):
+        for p1, p2, twins, dmin, cmax, jk in _independence_report(out, mi):
+            ww = dict(w, node_1=list(p1), node_2=list(p2), identical_mass_sets=twins, min_over_events_direction_distance=dmin, max_abs_mean_product=cmax, components_jk=list(jk),
+                      bound=bound, tests_in_group=T)
+            if twins:
+                acc.add(name_differ, dmin > TWIN_DELTA, ww)
+            acc.add(name_corr, cmax <= bound, ww)
+
+    for m0, mi in TWIN_CHAINS:
+        for seed in seeds:
+            s = 1000 * ctx.seed + 500 + seed
+            tf.random.set_seed(s)
+            use_fn = seed % 2 == 1
+            w = {"m0": m0, "mi": repr(mi), "N": N, "tf_seed": s, "entry": "generate_phsp" if use_fn else "ChainGenerator"}
+            ctx.count(key=(m0, repr(mi), seed), sample=w)
+            out, err = _try(lambda: PS.generate_phsp(m0, mi, N=N) if use_fn else PS.ChainGenerator(m0, mi).generate(N))
+            rep = {"raised": err} if err else _chain_report(out, m0, mi, N)
+            ok = err is None and rep.get("structure") and rep.get("count") and rep["finite"] and rep["shell"] <= TOL_DOUBLE and max(rep["dE"], rep["dp"], rep["sub"]) <= TOL_SINGLE
+            acc.add("chain/physical_with_identical_subdecays", bool(ok), dict(w, report=rep))
+            if not ok:
+                continue
+            judge(out, m0, mi, w, "chain/identical_subdecays_differ_event_by_event", "chain/subdecay_directions_uncorrelated")
+    # the same through the configuration: two fixed-mass resonances with the same mass and the same daughter masses
+    sname = "sid2g"
+    ro = {"R_BD": {"model": "one"}, "R_CE": {"model": "one"}}
+    cfg = M.build_config(sname, chains=["br"], res_over=ro)
+    with _quiet():
+        config = ctx.mod("config_loader").ConfigLoader(copy.deepcopy(cfg))
+    st = M.STRUCTS[sname]
+    m0 = st["top"][1]["mass"]
+    fm = {M.nm(sname, n): d["mass"] for n, d in st["finals"]}
+    nmk = "ConfigLoader.generate_phsp_p/identical_subdecays_independent"
+    for seed in seeds:
+        s = 1000 * ctx.seed + 550 + seed
+        tf.random.set_seed(s)
+        w = {"structure": sname, "chains": ["br"], "fixed_mass_resonances": ro, "N": N, "tf_seed": s}
+        ctx.count(key=("phsp_p", sname, seed), sample=w)
+        with _quiet():
+            p, err = _try(lambda: {str(k): np.asarray(v, dtype=np.float64) for k, v in config.generate_phsp_p(N).items()})
+        if err or sorted(p) != sorted(fm) or any(v.shape != (N, 4) for v in p.values()):
+            acc.add(nmk, False, dict(w, raised=err, shapes=None if p is None else {k: list(v.shape) for k, v in p.items()}, config_dict=cfg))
+            continue
+        out = [[p[M.nm(sname, "B")], p[M.nm(sname, "D")]], [p[M.nm(sname, "C")], p[M.nm(sname, "E")]]]
+        rep = _chain_report(out, m0, cfg_struct, N)
+        ok = rep["finite"] and rep["shell"] <= TOL_DOUBLE and max(rep["dE"], rep["dp"], rep["sub"]) <= TOL_SINGLE
+        acc.add(nmk, bool(ok), dict(w, report=rep, config_dict=cfg))
+        if ok:
+            judge(out, m0, cfg_struct, dict(w, config_dict=cfg), nmk, nmk)
+    acc.flush()
+
+
+# scale invariance ---------------------------------------------------------------------------------
+# Lorentz-invariant phase space has no mass scale: multiplying every mass by s multiplies every momentum by s and leaves the shape of the distribution - hence the
+# acceptance weight prod q_i / w_max, a ratio of two products of momenta - unchanged.  "The acceptance weight never exceeds one" is quantified over all parent masses,
+# so it is evaluated at five scales WITHOUT cal_max_weight().  The generator is a deterministic function of the TensorFlow seed (checked by the group itself on the
+# unscaled set: precondition, not an obligation), so the same seed at scale s must give the same weights and s times the momenta.
+# Tolerance 1e-9 (weights, which lie in [0,1]; momenta relative to s*m0): the scaled masses carry a relative rounding error eps = 2.2e-16, a break-up momentum
+# q = sqrt(lambda)/2M amplifies it by M^2/q^2, which is below 1e6 unless a proposed mass lies within 1e-12 (relative) of the edge of its range; none of the
+# <= 3e6 uniform mass proposals compared does (chance 3e-6), observed differences are <= 1e-14.  Momenta: the boost conditioning of _kin_report applies to both
+# samples compared - an event that contains a sub-system {k..n} with Lorentz factor gamma > 750 (massless daughters only; frequent among WEIGHTED events, whose
+# sub-system masses are uniform down to zero) is compared at 8 eps gamma^2 * s*m0 instead (observed: 1.02e-9 at gamma = 1.1e3 for 1.0 -> 3 massless, scale 1e-4).
+SCALE_SETS = [
+    (3.0, [0.5, 0.3, 0.14]),
+    (1.0, [0.0, 0.0, 0.0]),
+    (4.59925172, [2.00698, 2.01028, 0.13957]),
+    (3.1, [0.5, 0.3, 0.14, 0.0]),
+    (5.3, [0.14, 0.14, 0.14, 0.14, 0.14]),
+    (3.3, [0.5, 0.4, 0.3, 0.2, 0.1, 0.05]),
+]
+SCALES = [1e-4, 0.05, 1.0, 20.0, 1e4]
+TOL_SCALE = 1e-9
+
+
+@group(["C10"], "iface.C10/scale_invariance", _C10_FUNCS, env="tf", kind="B",
+       bound="6 mass sets (n = 3..6 bodies, massless daughters included) at the mass scales x1e-4, x0.05, x1, x20, x1e4 (every mass multiplied); 1e5 proposals per set and scale "
+             "for the weight, no call of cal_max_weight; generate(1000, flatten=False) and the events accepted by generate(20000, force=False) (a fixed number of proposals, so "
+             "that a wrong weight cannot make the group loop) after the same TensorFlow seed at every scale",
+       assumes=["A-LIB: after tf.random.set_seed(s) the eager-mode sequence of tf.random.uniform draws is reproducible (verified by the group on every unscaled mass set; a failure "
+                "of this precondition is reported as a machinery error, not as a violation)"])
+def c10_scale(ctx):
+    tf = ctx.mod("tensorflow_wrapper").tf
+    PS = ctx.mod("phasespace")
+    acc = Acc(ctx)
+    cl = {
+        "weight_le_1@every_mass_scale": "0 <= get_weight(ms) <= 1 on 1e5 proposed mass tuples, with and without the importance factor, for the same decay at the mass scales "
+                                        "1e-4 .. 1e4 without cal_max_weight (accept-reject is exact only then)",
+        "weight_scale_invariant": "the acceptance weights of generate(N, flatten=False) after the same TensorFlow seed are the same at every mass scale (to 1e-9): the weight is a ratio of "
+                                  "products of momenta and carries no dimension",
+        "momenta_scale_linearly": "after the same TensorFlow seed the momenta at scale s are s times the momenta at scale 1 (to 1e-9*s*m0; events containing a sub-system with Lorentz factor "
+                                  "gamma > 750 - massless daughters only - at 8 eps gamma^2*s*m0: boost conditioning), for the weighted events (flatten=False) and for the events accepted "
+                                  "out of 20000 proposals (force=False): the same proposals are accepted at every scale",
+        "physical@every_mass_scale": "at every scale: N weighted events and 0..20000 accepted events per daughter, finite, on shell to 1e-9*m0, momenta add up to (m0,0,0,0) to 2e-7*m0",
+    }
+    for k, c in cl.items():
+        acc.declare(k, c)
+    N, NP = 1000, 20000
+    for m0, mi in SCALE_SETS:
+        nb = len(mi)
+        s0 = 1000 * ctx.seed + 600
+
+        def sample(scale):
+            gen = PS.PhaseSpaceGenerator(m0 * scale, [m * scale for m in mi])
+            tf.random.set_seed(s0)
+            wt, pw = gen.generate(N, flatten=False)
+            tf.random.set_seed(s0 + 1)
+            pa = gen.generate(NP, force=False)
+            return gen, np.asarray(wt, dtype=np.float64), [np.asarray(p, dtype=np.float64) for p in pw], [np.asarray(p, dtype=np.float64) for p in pa]
+
+        _, w1, pw1, pa1 = sample(1.0)
+        k1 = int(pa1[0].shape[0])
+        amp_w, amp_a = _seq_amp(pw1), (_seq_amp(pa1) if k1 else np.ones(0))
+        for scale in SCALES:
+            ms0, msi = m0 * scale, [m * scale for m in mi]
+            w = {"m0": ms0, "mi": msi, "unscaled": [m0, list(mi)], "scale": scale, "N": N, "tf_seed": s0}
+            ctx.count(key=(m0, tuple(mi), scale), sample=w)
+            out, err = _try(lambda: sample(scale))
+            if err:
+                for k in cl:
+                    acc.add(k, False, dict(w, raised=err))
+                continue
+            gen, ws, pws, pas = out
+            if scale == 1.0 and not (len(pas) == len(pa1) and np.array_equal(ws, w1) and all(a.shape == b.shape and np.array_equal(a, b) for a, b in zip(pws + pas, pw1 + pa1))):
+                raise RuntimeError("precondition failed: PhaseSpaceGenerator(%r, %r) is not reproducible after tf.random.set_seed(%d)" % (m0, mi, s0))
+            # weight bound on 1e5 proposals
+            tf.random.set_seed(s0 + 10)
+            ms = gen.generate_mass(100000)
+            for imp in (True, False):
+                wt = np.asarray(gen.get_weight(ms, importances=imp), dtype=np.float64)
+                fin = bool(np.all(np.isfinite(wt)))
+                i = int(np.argmax(wt)) if fin else int(np.argmin(np.isfinite(wt)))
+                acc.add("weight_le_1@every_mass_scale", fin and wt.min() >= 0.0 and wt.max() <= 1.0,
+                        dict(w, tf_seed=s0 + 10, proposals=100000, importances=imp, max_weight=float(wt[i]), masses=[float(np.asarray(x)[i]) for x in ms],
+                             m_wtMax=float(gen.m_wtMax), fraction_of_proposals_above_1=float(np.mean(wt > 1.0)) if fin else None))
+            # same seed, other scale
+            ok_shape = ws.shape == w1.shape and _shape_ok(pws, nb, N)
+            dw = float(np.max(np.abs(ws - w1))) if ok_shape and np.all(np.isfinite(ws)) else float("inf")
+            i = int(np.argmax(np.abs(ws - w1))) if ok_shape else 0
+            acc.add("weight_scale_invariant", dw <= TOL_SCALE,
+                    dict(w, max_abs_weight_difference=dw, event=i, weight_at_this_scale=float(ws[i]) if ok_shape else None, weight_at_scale_1=float(w1[i]) if ok_shape else None))
+            dp = max(float(np.max(np.max(np.abs(a - scale * b), axis=1) / amp_w)) for a, b in zip(pws, pw1)) / ms0 if ok_shape else float("inf")
+            ka = int(pas[0].shape[0]) if len(pas) == nb else -1
+            same = ka == k1 and _shape_ok(pas, nb, ka)
+            dpa = (max(float(np.max(np.max(np.abs(a - scale * b), axis=1) / amp_a)) for a, b in zip(pas, pa1)) / ms0 if ka else 0.0) if same else float("inf")
+            acc.add("momenta_scale_linearly", math.isfinite(dp) and math.isfinite(dpa) and max(dp, dpa) <= TOL_SCALE,
+                    dict(w, max_dev_over_m0_weighted_events=dp, max_dev_over_m0_accepted_events=dpa, proposals=NP, accepted_at_this_scale=ka, accepted_at_scale_1=k1,
+                         tf_seed_accepted_events=s0 + 1))
+            ok = ok_shape and 0 <= ka <= NP and _shape_ok(pas, nb, ka)
+            rep = {}
+            for tag, ps in (("weighted", pws), ("accepted", pas)):
+                if ok:
+                    fin, shell, dE, dpp = _kin_report(ps, ms0, msi, seq=True)
+                    rep[tag] = {"finite": fin, "on_shell": shell, "dE": dE, "dp": dpp}
+                    ok = fin and shell <= TOL_DOUBLE and dE <= TOL_SINGLE and dpp <= TOL_SINGLE
+            acc.add("physical@every_mass_scale", bool(ok), dict(w, proposals=NP, accepted=ka, shapes_weighted=[list(p.shape) for p in pws], report=rep))
+    acc.flush()
+
+
+# node orders of the configuration-level generators ------------------------------------------------
+# config.get_phsp_p_generator(nodes=[[X, Y], ...]) / get_phsp_generator(nodes=...) reorder the daughters of the top decay of the phase-space chain so that the
+# named ones are generated last (their invariant mass is then the first generated one).  Whatever the order, the momenta handed out under a particle's NAME must
+# be on that particle's mass shell.  The repository supports node names among the daughters of the TOP decay of the chain only (final particles outside every
+# fixed-mass resonance, and the outermost fixed-mass resonances themselves, named "(X, Y)"): options naming a particle below the top level are declined with an
+# exception on the unchanged tree (KeyError / AssertionError in perfer_node), which the contract permits; if such an option returns events they must be physical too.
+NODE_CASES = [
+    # structure, chains, fixed-mass resonances, [(members, mass)], daughters of the top decay of the phase-space chain
+    ("s000", ["bc", "cd"], None, [], [("B",), ("C",), ("D",)]),
+    ("f4", ["cas", "cas2"], None, [], [("B",), ("C",), ("D",), ("E",)]),
+    ("s000", ["bd"], None, [], [("B",), ("C",), ("D",)]),          # one chain, resonance not of fixed mass: flat chain built by build_phsp_chain_sorted
+    ("s000", ["bc"], {"R_BC": {"model": "one"}}, [(("B", "C"), 1.5)], [("D",), ("B", "C")]),
+    ("f4", ["cas2"], {"R_BCD": {"model": "one"}, "R_BC": {"model": "one"}}, [(("B", "C"), 1.52), (("B", "C", "D"), 2.1)], [("E",), ("B", "C", "D")]),
+    ("f4", ["br"], {"R_BC": {"model": "one"}, "R_DE": {"model": "one"}}, [(("B", "C"), 1.52), (("D", "E"), 3.9)], [("B", "C"), ("D", "E")]),
+]
+
+
+def _node_name(sname, members):
+    return M.nm(sname, members[0]) if len(members) == 1 else "(%s)" % ", ".join(M.nm(sname, x) for x in members)
+
+
+def _ordered_subsets(names, rmax, ordered_upto):
+    """tuples of 1..rmax distinct names: every ordered tuple up to length ordered_upto, one order per subset above"""
+    import itertools
+
+    out = []
+    for r in range(1, rmax + 1):
+        out += [list(t) for t in (itertools.permutations(names, r) if r <= ordered_upto else itertools.combinations(names, r))]
+    return out
+
+
+@group(["C10"], "iface.C10/config_node_orders",
+       ["config_loader.sample:get_phsp_p_generator", "config_loader.sample:get_phsp_generator", "config_loader.sample:perfer_node", "config_loader.sample:trans_node_order",
+        "config_loader.sample:build_phsp_chain", "config_loader.sample:build_phsp_chain_sorted", "phasespace:ChainGenerator.generate"], env="tf", kind="B",
+       bound="3 final particles (0.5, 0.3, 0.14) and 4 final particles (0.938, 0.494, 0.1396, 3.0969), pairwise different masses, without fixed-mass resonances (two chains without a common "
+             "resonance; one chain) and with one / two (cascade, branching) fixed-mass resonances; nodes = [] and nodes = [t] for every ordered tuple t of 1..2 names and every tuple of 3 names (quick tier: one order per subset; thorough: every order) out of the final particles and "
+             "fixed-mass resonances; sequences of two nodes [t1, t2] of ordered pairs (quick tier: 12 seeded per case; thorough: all 36 / 144); 64 events per option; get_phsp_generator "
+             "(momenta inside the cal_angle data) for every unordered pair of daughters of the top decay (thorough: also nodes = [] and every single name)",
+       assumes=["generic masses at 2e-7*m0 for the momentum sum, see iface.C10/generator_generic_masses",
+                "node options that name a particle below the top decay of the phase-space chain may be declined with an exception (not supported by perfer_node on the unchanged tree)"])
+def c10_node_orders(ctx):
+    import itertools
+
+    tf = ctx.mod("tensorflow_wrapper").tf
+    acc = Acc(ctx)
+    cl = {
+        "get_phsp_p_generator/named_particles_on_shell@every_node_order": "get_phsp_p_generator(nodes=...).generate(N), every ordering option made of daughters of the top decay: exactly N finite events "
+                                                                         "under the name of every final particle, each NAMED particle on its own mass shell to 1e-9*m0 (pairwise different masses)",
+        "get_phsp_p_generator/conservation_and_submass@every_node_order": "the same options: momenta add up to (m0,0,0,0) and fixed-mass resonances have their mass, to 2e-7*m0",
+        "get_phsp_p_generator/two_nodes_in_sequence": "nodes = [t1, t2] (two preferred nodes applied one after the other): exactly N events, named particles on shell to 1e-9*m0, momenta conserved to 2e-7*m0",
+        "get_phsp_p_generator/declined_or_physical@nodes_below_top_level": "options naming a particle inside a fixed-mass resonance either raise or return physical events (named particles on shell, "
+                                                                          "momenta conserved)",
+        "get_phsp_generator/named_particles_physical@every_node_order": "get_phsp_generator(nodes=...).generate(N): the momenta stored under every final particle in the cal_angle data are N finite "
+                                                                       "on-shell (1e-9*m0) four-vectors that add up to (m0,0,0,0) (2e-7*m0)",
+    }
+    for k, c in cl.items():
+        acc.declare(k, c)
+    N = 64
+    counter = itertools.count()
+    for sname, chains, ro, fixed, top in NODE_CASES:
+        cfg = M.build_config(sname, chains=chains, res_over=ro)
+        with _quiet():
+            config = ctx.mod("config_loader").ConfigLoader(copy.deepcopy(cfg))
+        st = M.STRUCTS[sname]
+        m0 = st["top"][1]["mass"]
+        fm = {M.nm(sname, n): d["mass"] for n, d in st["finals"]}
+        finals = sorted(fm)
+        top_names = [_node_name(sname, t) for t in top]
+        all_names = finals + [_node_name(sname, parts) for parts, _ in fixed]
+        with _quiet():
+            known = {str(k) for k in config.get_phsp_p_generator().gen.unpack_map}
+        if not set(all_names) <= known:
+            raise RuntimeError("harness: node names %r are not the names used by the phase-space chain %r" % (all_names, sorted(known)))
+
+        def evaluate(p):
+            """-> (ok_count_and_shell, ok_conservation, report)"""
+            if sorted(p) != finals or any(v.shape != (N, 4) for v in p.values()):
+                return False, False, {"names": sorted(p), "shapes": {k: list(v.shape) for k, v in p.items()}}
+            fin, _, dE, dp = _kin_report([p[k] for k in finals], m0, [fm[k] for k in finals])
+            shell = {k: float(np.max(_E_form(p[k], fm[k]))) / m0 if fin else None for k in finals}
+            mass = {k: float(np.mean(_inv_mass(p[k]))) if fin else None for k in finals}
+            sub = 0.0
+            for parts, msub in fixed:
+                sub = max(sub, float(np.max(np.abs(_inv_mass(sum(p[M.nm(sname, x)] for x in parts)) - msub))) / m0)
+            rep = {"finite": fin, "on_shell_residual_over_m0": shell, "mean_invariant_mass_by_name": mass, "nominal_mass_by_name": fm, "dE": dE, "dp": dp, "submass": sub}
+            return bool(fin and max(shell.values()) <= TOL_DOUBLE), bool(fin and max(dE, dp, sub) <= TOL_SINGLE), rep
+
+        def run_p(nodes):
+            s = 1000 * ctx.seed + 700 + next(counter) % 7
+            tf.random.set_seed(s)
+            w = {"structure": sname, "chains": chains, "fixed_mass_resonances": ro, "nodes": nodes, "N": N, "tf_seed": s, "config_dict": cfg}
+            ctx.count(key=("p", sname, tuple(chains), repr(nodes)), sample={k: v for k, v in w.items() if k != "config_dict"})
+            with _quiet():
+                p, err = _try(lambda: {str(k): np.asarray(v, dtype=np.float64) for k, v in config.get_phsp_p_generator(nodes=nodes).generate(N).items()})
+            return p, err, w
+
+        singles = [[]] + [[t] for t in _ordered_subsets(all_names, 3, 2 if ctx.tier == "quick" else 3)]
+        for nodes in singles:
+            supported = all(x in top_names for t in nodes for x in t)
+            p, err, w = run_p(nodes)
+            if supported:
+                if err:
+                    acc.add("get_phsp_p_generator/named_particles_on_shell@every_node_order", False, dict(w, raised=err))
+                    continue
+                ok1, ok2, rep = evaluate(p)
+                acc.add("get_phsp_p_generator/named_particles_on_shell@every_node_order", ok1, dict(w, report=rep))
+                acc.add("get_phsp_p_generator/conservation_and_submass@every_node_order", ok2, dict(w, report=rep))
+            else:
+                ok1, ok2, rep = (True, True, {"raised": err}) if err else evaluate(p)
+                acc.add("get_phsp_p_generator/declined_or_physical@nodes_below_top_level", ok1 and ok2, dict(w, report=rep))
+        if not fixed:
+            pairs = [list(t) for t in itertools.permutations(finals, 2)]
+            seqs = [[a, b] for a in pairs for b in pairs]
+            if ctx.tier == "quick":
+                seqs = ctx.rng.sample(seqs, 12)
+            for nodes in seqs:
+                p, err, w = run_p(nodes)
+                ok1, ok2, rep = (False, False, {"raised": err}) if err else evaluate(p)
+                acc.add("get_phsp_p_generator/two_nodes_in_sequence", ok1 and ok2, dict(w, report=rep))
+        # the generator that also evaluates the angles
+        opts = [[list(t)] for t in itertools.combinations(top_names, 2)]
+        if ctx.tier != "quick":
+            opts = [[]] + [[[x]] for x in top_names] + opts
+        for nodes in opts:
+            s = 1000 * ctx.seed + 750 + next(counter) % 7
+            tf.random.set_seed(s)
+            w = {"structure": sname, "chains": chains, "fixed_mass_resonances": ro, "nodes": nodes, "N": N, "tf_seed": s, "config_dict": cfg}
+            ctx.count(key=("angle", sname, tuple(chains), repr(nodes)), sample={k: v for k, v in w.items() if k != "config_dict"})
+            with _quiet():
+                p, err = _try(lambda: {str(k): np.asarray(v["p"], dtype=np.float64) for k, v in config.get_phsp_generator(nodes=nodes).generate(N)["particle"].items() if str(k) in fm})
+            ok1, ok2, rep = (False, False, {"raised": err}) if err else evaluate(p)
+            acc.add("get_phsp_generator/named_particles_physical@every_node_order", ok1 and ok2, dict(w, report=rep))
     acc.flush()
 
 
